@@ -36,7 +36,7 @@ func genRoutesPlan(seed uint64, tier string) *Plan {
 	c.Hosts = []HostCfg{{Name: "nh1.hops.test", IP: "10.3.0.1"}, {Name: "nh2.hops.test", IP: "10.3.0.2"}}
 	c.Routes = genRouteTable(g, c, n)
 	for _, ip := range topo.hops {
-		c.TCPSinks = append(c.TCPSinks, hostPort(ip, 5060), hostPort(ip, 5080))
+		c.TCPSinks = append(c.TCPSinks, hostPort(ip, 5060), hostPort(ip, 5080), hostPort(ip, 45060), hostPort(ip, 65535))
 	}
 	c.Faults.MinLat = 50 * time.Microsecond
 	c.Faults.MaxLat = time.Millisecond
